@@ -4,6 +4,9 @@
    ReadSlices / BigMessage.ReadAll returned, plus the acknowledgements written. *)
 From MQ Require Export Bytes Spec Reader ReaderRun C15Check.
 
+(* byte-string literal whose length is given in N (long strings: no large nat literal) *)
+Definition BN (n : N) (x : N) : list N := B (N.to_nat n) x.
+
 Inductive errclass := CEOF | CTimeout | CProto | COther.
 
 Inductive bigread :=
